@@ -2,6 +2,7 @@ import CJ.Drv.Loop
 import CJ.Drv.Registry
 import CJ.Drv.RegistryX
 import CJ.Drv.Wrap
+import CJ.Drv.WrapStream
 /-! Driver for C02: registry histories followed by offers to the classifier models. -/
 open CJ.Drv
 
@@ -9,4 +10,7 @@ def main : IO Unit := runDriver fun
   | "registry" :: args => Registry.handle args
   | "registryx" :: args => RegistryX.handle args
   | "regwrap" :: args => Wrap.handle args
+  | "prepend" :: args => WrapStream.handle "prepend" args
+  | "wrapread" :: args => WrapStream.handle "wrapread" args
+  | "obfs4mark" :: args => WrapStream.handle "obfs4mark" args
   | _ => none
